@@ -1,0 +1,138 @@
+//go:build verif
+
+package gojq
+
+// Verification hooks (build tag verif). Nothing here is compiled into a normal build.
+
+// Optimisation switches consulted by the compiler when built with the verif tag.
+const (
+	VerifOptConstObject uint32 = 1 << iota
+	VerifOptConstArray
+	VerifOptUnaryConst
+	VerifOptConstIndex
+	VerifOptAssignSetpath
+	VerifOptInlineArg
+	VerifOptIfConstResult
+	VerifOptIfEmptyCond
+	VerifOptCallExpElide
+	VerifOptBindExpElide
+	VerifOptTailRec
+	VerifOptPeepPop
+	VerifOptPeepConst
+	VerifOptJumpOpt
+)
+
+const (
+	optConstObject   = VerifOptConstObject
+	optConstArray    = VerifOptConstArray
+	optUnaryConst    = VerifOptUnaryConst
+	optConstIndex    = VerifOptConstIndex
+	optAssignSetpath = VerifOptAssignSetpath
+	optInlineArg     = VerifOptInlineArg
+	optIfConstResult = VerifOptIfConstResult
+	optIfEmptyCond   = VerifOptIfEmptyCond
+	optCallExpElide  = VerifOptCallExpElide
+	optBindExpElide  = VerifOptBindExpElide
+	optTailRec       = VerifOptTailRec
+	optPeepPop       = VerifOptPeepPop
+	optPeepConst     = VerifOptPeepConst
+	optJumpOpt       = VerifOptJumpOpt
+)
+
+// VerifOptOff is the set of optimisations that are switched off. It is read at
+// compile time of a query only; set it before calling Compile.
+var VerifOptOff uint32
+
+func verifOptOff(bit uint32) bool { return VerifOptOff&bit != 0 }
+
+// VerifCode is one instruction of a compiled query.
+type VerifCode struct {
+	Op string
+	V  any
+}
+
+// VerifCodes returns the instruction list of a compiled query.
+func VerifCodes(c *Code) []VerifCode {
+	out := make([]VerifCode, len(c.codes))
+	for i, x := range c.codes {
+		out[i] = VerifCode{x.op.String(), x.v}
+	}
+	return out
+}
+
+// VerifBuiltinFuncDefs returns the precompiled builtin definitions table.
+func VerifBuiltinFuncDefs() map[string][]*FuncDef { return builtinFuncDefs }
+
+// VerifInternalFuncNames returns the names of the native functions.
+func VerifInternalFuncNames() map[string]int {
+	m := make(map[string]int, len(internalFuncs))
+	for k, f := range internalFuncs {
+		m[k] = f.argcount
+	}
+	return m
+}
+
+// VerifFootprint is the amount of interpreter state a live iterator retains.
+type VerifFootprint struct {
+	Forks               int
+	StackLive, StackCap int
+	ScopeLive, ScopeCap int
+	PathLive, PathCap   int
+	Values, Offset      int
+}
+
+// VerifFootprintOf reads the footprint of an iterator returned by Code.Run.
+func VerifFootprintOf(it Iter) (fp VerifFootprint, ok bool) {
+	env, ok := it.(*env)
+	if !ok {
+		return fp, false
+	}
+	fp.Forks = len(env.forks)
+	fp.StackLive, fp.StackCap = max(env.stack.index, env.stack.limit)+1, len(env.stack.data)
+	fp.ScopeLive, fp.ScopeCap = max(env.scopes.index, env.scopes.limit)+1, len(env.scopes.data)
+	fp.PathLive, fp.PathCap = max(env.paths.index, env.paths.limit)+1, len(env.paths.data)
+	fp.Values, fp.Offset = len(env.values), env.offset
+	return fp, true
+}
+
+// VerifStack wraps the unexported persistent stack so that its save/restore
+// discipline can be explored from outside the package.
+type VerifStack struct{ s *stack }
+
+func NewVerifStack() *VerifStack               { return &VerifStack{newStack()} }
+func (v *VerifStack) Push(x any)               { v.s.push(x) }
+func (v *VerifStack) Pop() any                 { return v.s.pop() }
+func (v *VerifStack) Top() any                 { return v.s.top() }
+func (v *VerifStack) Empty() bool              { return v.s.empty() }
+func (v *VerifStack) Save() (index, limit int) { return v.s.save() }
+func (v *VerifStack) Restore(index, limit int) { v.s.restore(index, limit) }
+func (v *VerifStack) DataLen() int             { return len(v.s.data) }
+func (v *VerifStack) IndexLimit() (int, int)   { return v.s.index, v.s.limit }
+
+// Contents returns the logical contents, top first.
+func (v *VerifStack) Contents() []any {
+	var out []any
+	for i := v.s.index; i >= 0; i = v.s.data[i].next {
+		out = append(out, v.s.data[i].value)
+	}
+	return out
+}
+
+// VerifScopeStack wraps the unexported scope stack; the scope's id field carries the pushed value.
+type VerifScopeStack struct{ s *scopeStack }
+
+func NewVerifScopeStack() *VerifScopeStack          { return &VerifScopeStack{newScopeStack()} }
+func (v *VerifScopeStack) Push(x int)               { v.s.push(scope{id: x}) }
+func (v *VerifScopeStack) Pop() int                 { return v.s.pop().id }
+func (v *VerifScopeStack) Empty() bool              { return v.s.empty() }
+func (v *VerifScopeStack) Save() (index, limit int) { return v.s.save() }
+func (v *VerifScopeStack) Restore(index, limit int) { v.s.restore(index, limit) }
+func (v *VerifScopeStack) DataLen() int             { return len(v.s.data) }
+func (v *VerifScopeStack) IndexLimit() (int, int)   { return v.s.index, v.s.limit }
+func (v *VerifScopeStack) Contents() []int {
+	var out []int
+	for i := v.s.index; i >= 0; i = v.s.data[i].next {
+		out = append(out, v.s.data[i].value.id)
+	}
+	return out
+}
